@@ -537,6 +537,124 @@ func cmdArgs(v ssa.Value) []string {
 	return out
 }
 
+// probeWrapper recognises a helper that runs one external command built from its own parameters and returns whether
+// it succeeded: `func works(label, name string, args ...string) bool { err := exec.Command(name, args...).Run(); …;
+// return err == nil }`. It returns the indexes of the parameters that make up the command line. A call of such a
+// helper is, to the probe rules, an external probe whose result already is (error == nil).
+func probeWrapper(fn *ssa.Function) ([]int, bool) {
+	if fn == nil || len(fn.Blocks) == 0 || fn.Signature.Recv() != nil {
+		return nil, false
+	}
+	if res := fn.Signature.Results(); res.Len() != 1 {
+		return nil, false
+	} else if b, ok := res.At(0).Type().Underlying().(*types.Basic); !ok || b.Kind() != types.Bool {
+		return nil, false
+	}
+	var run *ssa.Call
+	for _, b := range fn.Blocks {
+		for _, ins := range b.Instrs {
+			if c, ok := ins.(*ssa.Call); ok && isExecRun(&c.Call) {
+				if run != nil {
+					return nil, false
+				}
+				run = c
+			}
+		}
+	}
+	if run == nil || len(run.Call.Args) == 0 {
+		return nil, false
+	}
+	cmd, ok := run.Call.Args[0].(*ssa.Call)
+	if !ok || cmd.Call.StaticCallee() == nil || cmd.Call.StaticCallee().Object() == nil {
+		return nil, false
+	}
+	if full := cmd.Call.StaticCallee().Object().(*types.Func).FullName(); full != "os/exec.Command" {
+		return nil, false
+	}
+	var idx []int
+	for _, a := range cmd.Call.Args {
+		p, ok := a.(*ssa.Parameter)
+		if !ok {
+			return nil, false
+		}
+		for i, fp := range fn.Params {
+			if fp == p {
+				idx = append(idx, i)
+			}
+		}
+	}
+	// every return yields (run error == nil)
+	for _, b := range fn.Blocks {
+		for _, ins := range b.Instrs {
+			ret, ok := ins.(*ssa.Return)
+			if !ok {
+				continue
+			}
+			if len(ret.Results) != 1 {
+				return nil, false
+			}
+			bin, ok := ret.Results[0].(*ssa.BinOp)
+			if !ok || bin.Op != token.EQL {
+				return nil, false
+			}
+			var other ssa.Value
+			if k, ok := bin.Y.(*ssa.Const); ok && k.IsNil() {
+				other = bin.X
+			} else if k, ok := bin.X.(*ssa.Const); ok && k.IsNil() {
+				other = bin.Y
+			}
+			if other != ssa.Value(run) {
+				return nil, false
+			}
+		}
+	}
+	return idx, true
+}
+
+// wrapperCmd: the constant strings a call passes for the command-line parameters of a probe wrapper.
+func wrapperCmd(c *ssa.Call, idx []int) []string {
+	var out []string
+	for _, i := range idx {
+		if i >= len(c.Call.Args) {
+			continue
+		}
+		switch x := c.Call.Args[i].(type) {
+		case *ssa.Const:
+			if x.Value != nil && x.Value.Kind() == constant.String {
+				out = append(out, constant.StringVal(x.Value))
+			}
+		case *ssa.Slice:
+			if al, ok := x.X.(*ssa.Alloc); ok {
+				type st struct {
+					idx int64
+					s   string
+				}
+				var elems []st
+				for _, ref := range *al.Referrers() {
+					if ia, ok := ref.(*ssa.IndexAddr); ok {
+						k := int64(-1)
+						if ci, ok := ia.Index.(*ssa.Const); ok {
+							k, _ = constant.Int64Val(ci.Value)
+						}
+						for _, r2 := range *ia.Referrers() {
+							if s, ok := r2.(*ssa.Store); ok {
+								if cs, ok := s.Val.(*ssa.Const); ok && cs.Value != nil && cs.Value.Kind() == constant.String {
+									elems = append(elems, st{k, constant.StringVal(cs.Value)})
+								}
+							}
+						}
+					}
+				}
+				sort.Slice(elems, func(i, j int) bool { return elems[i].idx < elems[j].idx })
+				for _, e := range elems {
+					out = append(out, e.s)
+				}
+			}
+		}
+	}
+	return out
+}
+
 type probeInfo struct {
 	fn       *ssa.Function
 	field    int
@@ -662,6 +780,7 @@ func (lw *lckWorld) probeTypestate(pi *probeInfo) {
 		}
 	}
 	var runs []*ssa.Call
+	wrapped := map[*ssa.Call]bool{} // calls of a probe wrapper: their result already is (error == nil)
 	for _, b := range f.Blocks {
 		for _, ins := range b.Instrs {
 			c, ok := ins.(*ssa.Call)
@@ -676,6 +795,10 @@ func (lw *lckWorld) probeTypestate(pi *probeInfo) {
 			} else if args := cmdArgs(c); args != nil && c.Call.StaticCallee().Name() == "LookPath" {
 				runs = append(runs, c)
 				pi.probeCmd = args
+			} else if idx, ok := probeWrapper(c.Call.StaticCallee()); ok {
+				runs = append(runs, c)
+				wrapped[c] = true
+				pi.probeCmd = wrapperCmd(c, idx)
 			}
 		}
 	}
@@ -714,6 +837,9 @@ func (lw *lckWorld) probeTypestate(pi *probeInfo) {
 			}
 			c := "*" + fld + " = (probe error == nil)"
 			good := false
+			if wc, ok := st.Val.(*ssa.Call); ok && wrapped[wc] {
+				good = true // the wrapper returns exactly (run error == nil)
+			}
 			if bin, ok := st.Val.(*ssa.BinOp); ok && bin.Op == token.EQL {
 				var other ssa.Value
 				if k, ok := bin.Y.(*ssa.Const); ok && k.IsNil() {
